@@ -221,10 +221,10 @@ def main(tier, replay=None):
         "evaluations": len(hist),
         "distinct_nontrivial": len(st["distinct"]),
         "rule": "one evaluation = one history on the real wallet: 2-3 wallets (standard and staking addresses), 8-23 random steps (blocks with 0-3 random transactions incl. in-block spend chains and "
-                "transactions paying/spending several wallets, coinbase/standard/staking/binding outputs, reorgs, pending transactions delivered through the real filterTx and mined later, queries), "
+                "transactions paying/spending several wallets, sweep transactions that spend several outputs of ONE earlier transaction owned by different wallets (random input order) into one output, coinbase/standard/staking/binding outputs, reorgs, pending transactions delivered through the real filterTx and mined later, queries), "
                 "a wrong-passphrase request, the removal of a random wallet driven step by step (nothing / a block / a reorg queued between two steps / crash+restart between steps, with or without a reorg while down), "
                 "listing, UseWallet, build+sign by the survivors before/after, 3-10 more steps and a 2-5 deep reorg, then either re-import of the removed mnemonic (rescan, queries) or stop + raw LevelDB scan; "
-                "plus directed scenarios (the witnesses of the _refuted theorems, refusal while importing, re-import, in the thorough tier 20100 credits = two capped rounds with a restart between them). "
+                "plus directed scenarios (the witnesses of the _refuted theorems, refusal while importing, re-import, block-record order after a rescan, shared-spend variants with two and three inputs from one previous transaction in both orders, in the thorough tier 20100 credits = two capped rounds with a restart between them). "
                 "distinct_nontrivial = distinct reports with at least one listed coin. " + stats,
         "queries": st["nq"], "quiescent_queries_checked_against_spec": st["nquiet"], "announcements": st["nproc"],
         "worker_steps": st["nsteps"], "raw_scans": st["nz"], "processes_died": st["died"],
